@@ -241,7 +241,7 @@ def _row(prog, rep, m, cw, iw, getcall):
     # value of the row when the inner loop is entered
     from ..paths import entry_value
     init = entry_value(prog, body, m.inner, m.row)
-    r.check(init == ("call", "From::from", (m.left,)) or init == ("call", "String::from", (m.left,)), "row-start",
+    r.check(init == ("call", "String::from", (m.left,)), "row-start",
             "each row starts as String::from(left_gap)", D(init) if init else "",
             "a row starts as %s, expected String::from(left_gap)" % (D(init) if init else "?"))
     # events on the row outside the inner loop but inside the outer loop
